@@ -221,7 +221,7 @@ Usage:
 	} else if len(args) == 0 {
 		arg = "."
 	} else {
-		arg, args, fname = strings.TrimSpace(args[0]), args[1:], "<arg>"
+		arg, args, fname = args[0], args[1:], "<arg>"
 	}
 	if opts.ExitStatus {
 		cli.exitCodeError = &exitCodeError{exitCodeNoValueErr}
